@@ -8,6 +8,7 @@ import Dashu.Model.Float.RoundOps
 import Dashu.Driver.TextDebug
 import Dashu.Model.Text.Pieces
 import Dashu.Model.Text.ChunksGuard
+import Dashu.Model.Text.BytesBE
 /-
   Driver of group `text` (C07): integer formatting, parsing, byte and chunk encodings.
   For every case the *required* result (specification side: `digits`/`pad_integral`/grammar/
@@ -304,25 +305,25 @@ def dispatch : Dispatch := fun W op args =>
     pure (flag ("ok " ++ natBytesToStr (toLeBytes W n)) ("ok " ++ natBytesToStr (leBytesSpec n)) false)
   | "u.be", [n] => do
     let n ← parseNat n
-    pure (flag ("ok " ++ natBytesToStr (toBeBytes W n)) ("ok " ++ natBytesToStr (leBytesSpec n).reverse) false)
+    pure (flag ("ok " ++ natBytesToStr (toBeBytesM W n)) ("ok " ++ natBytesToStr (leBytesSpec n).reverse) false)
   | "i.le", [n] => do
     let z ← parseInt n
     pure (flag ("ok " ++ natBytesToStr (ibigToLeBytes W z)) ("ok " ++ natBytesToStr (signedLeBytesSpec z)) false)
   | "i.be", [n] => do
     let z ← parseInt n
-    pure (flag ("ok " ++ natBytesToStr (ibigToBeBytes W z)) ("ok " ++ natBytesToStr (signedLeBytesSpec z).reverse) false)
+    pure (flag ("ok " ++ natBytesToStr (ibigToBeBytesM W z)) ("ok " ++ natBytesToStr (signedLeBytesSpec z).reverse) false)
   | "u.from_le", [s] => do
     let b ← parseStr s
     pure (flag ("ok " ++ natToHex (fromLeBytes W b)) ("ok " ++ natToHex (ofLeBytesSpec b)) false)
   | "u.from_be", [s] => do
     let b ← parseStr s
-    pure (flag ("ok " ++ natToHex (fromBeBytes W b)) ("ok " ++ natToHex (ofLeBytesSpec b.reverse)) false)
+    pure (flag ("ok " ++ natToHex (fromBeBytesM W b)) ("ok " ++ natToHex (ofLeBytesSpec b.reverse)) false)
   | "i.from_le", [s] => do
     let b ← parseStr s
     pure (flag ("ok " ++ intToHex (fromSignedLeBytes W b)) ("ok " ++ intToHex (ofSignedLeBytesSpec b)) false)
   | "i.from_be", [s] => do
     let b ← parseStr s
-    pure (flag ("ok " ++ intToHex (fromSignedBeBytes W b)) ("ok " ++ intToHex (ofSignedLeBytesSpec b.reverse)) false)
+    pure (flag ("ok " ++ intToHex (fromSignedBeBytesM W b)) ("ok " ++ intToHex (ofSignedLeBytesSpec b.reverse)) false)
   -- ---------------------------------------------------------------- chunks
   | "u.chunks", [n, k] => do
     let n ← parseNat n; let k ← parseDecNat k
